@@ -41,8 +41,9 @@ Definition never : timeout := mk_timeout 0 None.
 (* ------------------------------------------------------------------ state *)
 (* what the scripted stream delivers: the reply to our request (value or exception; materialising the value takes
    [u] ticks -- 0 for plain values, a round trip for a proxy of an unseen class), an unrelated request whose dispatch
-   keeps the serving thread busy for [d] ticks, or a reply nobody waits for *)
-Inductive msg := Reply (e : bool) (v : Z) (u : N) | Traffic (d : N) | Stray.
+   keeps the serving thread busy for [d] ticks, or a reply to ANOTHER pending request of the same connection, whose own
+   callbacks keep the serving thread busy for [d] ticks (0: nobody waits for it) *)
+Inductive msg := Reply (e : bool) (v : Z) (u : N) | Traffic (d : N) | Stray (d : N).
 
 (* a callback: its id and whether it raises when run *)
 Record ar := { ready : bool; is_exc : bool; obj : Z; callbacks : list (N * bool); ttl : timeout }.
@@ -142,7 +143,7 @@ Definition dispatch (w : world) (r : Z) (m : msg) : world * option N :=
                       let w0 := set_now w (now w + Z.of_N u) in
                       if registered w then ar_call (set_registered w0 false) e v else (w0, None)
                   | Traffic d => (set_now w (now w + Z.of_N d), None)
-                  | Stray => (w, None)
+                  | Stray d => (set_now w (now w + Z.of_N d), None)
                   end in
   (add_disp w1 (r, now w, now w1, m), x).
 
@@ -484,13 +485,27 @@ Definition cexec1 (cfg : string -> option Z) (own : option Z) (sd : N) (s : cstm
 Definition cexec (cfg : string -> option Z) (own : option Z) (sd : N) (p : list cstmt) (f : cframe) : cframe :=
   fold_left (fun f s => cexec1 cfg own sd s f) p f.
 
+(* ------------------------------------------------------------------ materialisation is bounded by sync_request_timeout *)
+(* unboxing a proxy of an unseen class is a nested sync_request(HANDLE_INSPECT) under the connection's configured timeout
+   [cfg]: if the peer needs u >= cfg ticks the inquiry times out after cfg ticks, and _dispatch_response delivers that
+   timeout error -- an instance of the very class wait() raises -- to the request as its exception ([tmark] stands for it).
+   The bound is a property of the message and the configuration alone, so it is applied to the script up front. *)
+Definition tmark : Z := -999.
+Definition bound_reply (cfg : option Z) (m : msg) : msg :=
+  match m with
+  | Reply e v u => if timeout_finite cfg && (oz cfg <=? Z.of_N u) && negb (u =? 0)%N then Reply true tmark (Z.to_N (oz cfg)) else m
+  | _ => m
+  end.
+Definition norm_queue (cfg : option Z) (q : list (Z * Z * msg)) : list (Z * Z * msg) :=
+  map (fun x => (fst x, bound_reply cfg (snd x))) q.
+
 (* ------------------------------------------------------------------ harness interface *)
 Definition opt_of_sx (x : sx) : option Z := match x with SL [v] => Some (sx_z v) | _ => None end.
 Definition msg_of_sx (x : sx) : Z * Z * msg :=
   match x with
   | SL [a; c; k; p; q; u] =>
-      (sx_z a, sx_z c, if sx_z k =? 0 then Reply (sx_bool p) (sx_z q) (sx_n u) else if sx_z k =? 1 then Traffic (sx_n p) else Stray)
-  | _ => (0, 0, Stray)
+      (sx_z a, sx_z c, if sx_z k =? 0 then Reply (sx_bool p) (sx_z q) (sx_n u) else if sx_z k =? 1 then Traffic (sx_n p) else Stray (sx_n p))
+  | _ => (0, 0, Stray 0)
   end.
 Definition action_of_sx (x : sx) : action :=
   match x with
@@ -516,15 +531,15 @@ Definition sx_of_world (w : world) : sx :=
 Definition sx_of_trace (tr : list (obs * Z)) : sx := SL (map (fun p => SL [sx_of_obs (fst p); SI (snd p)]) tr).
 
 (* cases:
-   ("hist" (mode tie iso atom) t0 timeout send_dur queue actions)
+   ("hist" (mode tie iso atom cfg) t0 timeout send_dur queue actions)     cfg = the configured sync_request_timeout
         mode 0 = async_request(timeout=..), 1 = conn.sync_request with config timeout, 2 = timed(proxy, timeout)(..),
         3 = a synchronous operation on a proxy (netref.syncreq) with config timeout
    ("tmo" timeout t_create t_query)                      the Timeout class alone *)
 Definition run_async (x : sx) : sx :=
   match x with
-  | SL [op; SL [mode; tb; i; a]; t0; tmo; sd; q; acts] =>
+  | SL [op; SL [mode; tb; i; a; cfg]; t0; tmo; sd; q; acts] =>
       if is_tag "hist" op then
-        let w0 := fresh (sx_z t0) (sx_bool tb) (sx_bool i) (sx_bool a) (map msg_of_sx (sx_l q)) in
+        let w0 := fresh (sx_z t0) (sx_bool tb) (sx_bool i) (sx_bool a) (norm_queue (opt_of_sx cfg) (map msg_of_sx (sx_l q))) in
         let t := opt_of_sx tmo in
         if (sx_z mode =? 1) || (sx_z mode =? 3) then
           let (w1, o) := sync_request t (sx_n sd) w0 in
